@@ -36,15 +36,16 @@ theorem sizePer_le (k : Kind) : k.sizePer ≤ 9 := by cases k <;> decide
 
 /-- one cell section of ref_part_bin_ugrid on a file of the shape `pre ++ conn ++ mid ++ tags ++ post` whose header
     declares `cs.length` cells of kind `k` and whose generated offsets are the positions of `conn` and `tags` -/
-theorem partSection_spec (fl : Flavor) (k : Kind) {n : Nat} (hn : n < 2 ^ 27) (cs : List (List Int))
+theorem partSection_spec (cfg : Cfg) (hcap : cfg.allocCap = 2 ^ 30) (fl : Flavor) (k : Kind) {n : Nat} (hn : n < 2 ^ 27)
+    (cs : List (List Int))
     (hcs : ∀ c ∈ cs, cellOk k n c = true) (hlen : cs.length < 2 ^ 31) (pre mid post : Bytes) (hdr : List Int)
     (hcount : hdr.getD k.hdrIndex 0 = (cs.length : Int)) (hnn : hdr.getD 0 0 = (n : Int))
     (hoff1 : (offsetsOf k (UgridOffsets.ibyte fl.fat) hdr).1 = (pre.length : Int))
     (hoff2 : k.hasTag = true → (offsetsOf k (UgridOffsets.ibyte fl.fat) hdr).2 =
       ((pre ++ secConn fl k cs ++ mid).length : Int))
     (np : Nat) (hnp : 1 ≤ np) (chunk : Nat) (hc1 : 1 ≤ chunk) (hc2 : 72 * chunk ≤ 2 ^ 30) :
-    partSection fl (pre ++ secConn fl k cs ++ mid ++ (if k.hasTag then secTags fl k cs else []) ++ post) np (some chunk)
-      hdr k = .ok (dedupCells k cs []) := by
+    partSection cfg fl (pre ++ secConn fl k cs ++ mid ++ (if k.hasTag then secTags fl k cs else []) ++ post) np
+      (some chunk) hdr k = .ok (dedupCells k cs []) := by
   unfold partSection
   simp only [hcount, hnn]
   by_cases h0 : cs.length = 0
@@ -58,28 +59,20 @@ theorem partSection_spec (fl : Flavor) (k : Kind) {n : Nat} (hn : n < 2 ^ 27) (c
       have : k.sizePer * chunk ≤ 9 * chunk := Nat.mul_le_mul_right _ hsz
       have : (k.sizePer : Int) * (chunk : Int) ≤ 9 * chunk := by exact_mod_cast this
       omega
-    have ha : ¬ (ugridCfg.allocCap < 8 * k.sizePer * chunk) := by
-      have : ugridCfg.allocCap = 2 ^ 30 := rfl
-      rw [this]
+    have ha : ¬ (cfg.allocCap < 8 * k.sizePer * chunk) := by
+      rw [hcap]
       have : k.sizePer * chunk ≤ 9 * chunk := Nat.mul_le_mul_right _ hsz
       have : 8 * k.sizePer * chunk ≤ 72 * chunk := by rw [Nat.mul_assoc]; omega
       omega
     simp only [hu, ha, if_false, Int.toNat_natCast]
-    have hloop := partCellLoop_spec fl k hn cs hcs pre mid post
+    have hloop := partCellLoop_spec cfg fl k hn cs hcs pre mid post
       (offsetsOf k (UgridOffsets.ibyte fl.fat) hdr).1 (offsetsOf k (UgridOffsets.ibyte fl.fat) hdr).2 hoff1 hoff2
       chunk hc1 cs.length 0 (Nat.zero_le _) (by omega)
     rw [List.drop_zero] at hloop
     rw [hloop]
     simp only
     -- every index is a node, and there is a node
-    have hidx : cs.all (partIndexOk k (n : Int)) = true := by
-      rw [List.all_eq_true]
-      intro c hc
-      unfold partIndexOk
-      rw [List.all_eq_true]
-      intro g hg
-      have := ((cellOk_iff k n c).1 (hcs c hc)).2.1 g hg
-      simp; omega
+    have hidx : cs.all (partIndexOk k (n : Int)) = true := partIndexOk_of_cellOk hcs
     have hn1 : 1 ≤ (n : Int) := by
       obtain ⟨c, hc⟩ := List.exists_mem_of_length_pos (by omega : 0 < cs.length)
       have hl := take_length_of_cellOk (hcs c hc)
@@ -102,9 +95,9 @@ theorem hdrOf_getD0 (m : UMesh) : (hdrOf m).getD 0 0 = (m.nodes.length : Int) :=
 
 /-- every section of ref_part_bin_ugrid on the laid-out file returns the cells of that kind (deduplicated by node set),
     for every rank count ≥ 1 and every chunk size from 1 up to what the allocator cap allows -/
-theorem partSection_raw (fl : Flavor) (m : UMesh) (hw : WellFormed m = true) (np : Nat) (hnp : 1 ≤ np) (chunk : Nat)
-    (hc1 : 1 ≤ chunk) (hc2 : 72 * chunk ≤ 2 ^ 30) (k : Kind) :
-    partSection fl (encodeRaw fl m) np (some chunk) (hdrOf m) k = .ok (dedupCells k (m.get k) []) := by
+theorem partSection_raw (cfg : Cfg) (hcap : cfg.allocCap = 2 ^ 30) (fl : Flavor) (m : UMesh) (hw : WellFormed m = true)
+    (np : Nat) (hnp : 1 ≤ np) (chunk : Nat) (hc1 : 1 ≤ chunk) (hc2 : 72 * chunk ≤ 2 ^ 30) (k : Kind) :
+    partSection cfg fl (encodeRaw fl m) np (some chunk) (hdrOf m) k = .ok (dedupCells k (m.get k) []) := by
   obtain ⟨hn, hk⟩ := (wf_iff m).1 hw
   obtain ⟨o1, o2, o3, o4, o5, o6⟩ := offsets_raw fl m hw
   have hraw : encodeRaw fl m = secHeader fl m ++ secNodes fl m ++ secConn fl .tri m.tri ++ secConn fl .qua m.qua ++
@@ -114,7 +107,7 @@ theorem partSection_raw (fl : Flavor) (m : UMesh) (hw : WellFormed m = true) (np
   have hstart : ∀ i, rawStart fl m i = ((sectionsRaw fl m).take i).flatten.length := fun _ => rfl
   cases k
   · -- tri: pre = header ++ nodes, mid = quad connectivity
-    have := partSection_spec fl .tri hn m.tri (hk .tri).2 (hk .tri).1 (secHeader fl m ++ secNodes fl m)
+    have := partSection_spec cfg hcap fl .tri hn m.tri (hk .tri).2 (hk .tri).1 (secHeader fl m ++ secNodes fl m)
       (secConn fl .qua m.qua)
       (secTags fl .qua m.qua ++ secConn fl .tet m.tet ++ secConn fl .pyr m.pyr ++ secConn fl .pri m.pri ++
         secConn fl .hex m.hex) (hdrOf m) (hdrOf_getD m .tri) (hdrOf_getD0 m)
@@ -123,7 +116,7 @@ theorem partSection_raw (fl : Flavor) (m : UMesh) (hw : WellFormed m = true) (np
     simp only [hasTag_tri, if_true] at this
     rw [hraw]; simp only [List.append_assoc] at this ⊢; exact this
   · -- qua: pre = header ++ nodes ++ tri connectivity, mid = tri tags
-    have := partSection_spec fl .qua hn m.qua (hk .qua).2 (hk .qua).1
+    have := partSection_spec cfg hcap fl .qua hn m.qua (hk .qua).2 (hk .qua).1
       (secHeader fl m ++ secNodes fl m ++ secConn fl .tri m.tri) (secTags fl .tri m.tri)
       (secConn fl .tet m.tet ++ secConn fl .pyr m.pyr ++ secConn fl .pri m.pri ++ secConn fl .hex m.hex) (hdrOf m)
       (hdrOf_getD m .qua) (hdrOf_getD0 m)
@@ -131,7 +124,7 @@ theorem partSection_raw (fl : Flavor) (m : UMesh) (hw : WellFormed m = true) (np
       (fun _ => by rw [o2]; simp [hstart, sectionsRaw] <;> omega) np hnp chunk hc1 hc2
     simp only [hasTag_qua, if_true] at this
     rw [hraw]; simp only [List.append_assoc] at this ⊢; exact this
-  · have := partSection_spec fl .tet hn m.tet (hk .tet).2 (hk .tet).1
+  · have := partSection_spec cfg hcap fl .tet hn m.tet (hk .tet).2 (hk .tet).1
       (secHeader fl m ++ secNodes fl m ++ secConn fl .tri m.tri ++ secConn fl .qua m.qua ++ secTags fl .tri m.tri ++
         secTags fl .qua m.qua) []
       (secConn fl .pyr m.pyr ++ secConn fl .pri m.pri ++ secConn fl .hex m.hex) (hdrOf m)
@@ -140,7 +133,7 @@ theorem partSection_raw (fl : Flavor) (m : UMesh) (hw : WellFormed m = true) (np
       (fun h => by simp [hasTag_tet] at h) np hnp chunk hc1 hc2
     simp only [hasTag_tet, Bool.false_eq_true, if_false] at this
     rw [hraw]; simp only [List.append_assoc, List.append_nil, List.nil_append] at this ⊢; exact this
-  · have := partSection_spec fl .pyr hn m.pyr (hk .pyr).2 (hk .pyr).1
+  · have := partSection_spec cfg hcap fl .pyr hn m.pyr (hk .pyr).2 (hk .pyr).1
       (secHeader fl m ++ secNodes fl m ++ secConn fl .tri m.tri ++ secConn fl .qua m.qua ++ secTags fl .tri m.tri ++
         secTags fl .qua m.qua ++ secConn fl .tet m.tet) []
       (secConn fl .pri m.pri ++ secConn fl .hex m.hex) (hdrOf m)
@@ -149,7 +142,7 @@ theorem partSection_raw (fl : Flavor) (m : UMesh) (hw : WellFormed m = true) (np
       (fun h => by simp [hasTag_pyr] at h) np hnp chunk hc1 hc2
     simp only [hasTag_pyr, Bool.false_eq_true, if_false] at this
     rw [hraw]; simp only [List.append_assoc, List.append_nil, List.nil_append] at this ⊢; exact this
-  · have := partSection_spec fl .pri hn m.pri (hk .pri).2 (hk .pri).1
+  · have := partSection_spec cfg hcap fl .pri hn m.pri (hk .pri).2 (hk .pri).1
       (secHeader fl m ++ secNodes fl m ++ secConn fl .tri m.tri ++ secConn fl .qua m.qua ++ secTags fl .tri m.tri ++
         secTags fl .qua m.qua ++ secConn fl .tet m.tet ++ secConn fl .pyr m.pyr) []
       (secConn fl .hex m.hex) (hdrOf m)
@@ -158,7 +151,7 @@ theorem partSection_raw (fl : Flavor) (m : UMesh) (hw : WellFormed m = true) (np
       (fun h => by simp [hasTag_pri] at h) np hnp chunk hc1 hc2
     simp only [hasTag_pri, Bool.false_eq_true, if_false] at this
     rw [hraw]; simp only [List.append_assoc, List.append_nil, List.nil_append] at this ⊢; exact this
-  · have := partSection_spec fl .hex hn m.hex (hk .hex).2 (hk .hex).1
+  · have := partSection_spec cfg hcap fl .hex hn m.hex (hk .hex).2 (hk .hex).1
       (secHeader fl m ++ secNodes fl m ++ secConn fl .tri m.tri ++ secConn fl .qua m.qua ++ secTags fl .tri m.tri ++
         secTags fl .qua m.qua ++ secConn fl .tet m.tet ++ secConn fl .pyr m.pyr ++ secConn fl .pri m.pri) []
       [] (hdrOf m)
@@ -168,13 +161,14 @@ theorem partSection_raw (fl : Flavor) (m : UMesh) (hw : WellFormed m = true) (np
     simp only [hasTag_hex, Bool.false_eq_true, if_false] at this
     rw [hraw]; simp only [List.append_assoc, List.append_nil, List.nil_append] at this ⊢; exact this
 
-theorem partSections_raw (fl : Flavor) (m : UMesh) (hw : WellFormed m = true) (np : Nat) (hnp : 1 ≤ np) (chunk : Nat)
-    (hc1 : 1 ≤ chunk) (hc2 : 72 * chunk ≤ 2 ^ 30) (ks : List Kind) :
-    partSections fl (encodeRaw fl m) np (some chunk) (hdrOf m) ks = .ok (ks.map fun k => dedupCells k (m.get k) []) := by
+theorem partSections_raw (cfg : Cfg) (hcap : cfg.allocCap = 2 ^ 30) (fl : Flavor) (m : UMesh) (hw : WellFormed m = true)
+    (np : Nat) (hnp : 1 ≤ np) (chunk : Nat) (hc1 : 1 ≤ chunk) (hc2 : 72 * chunk ≤ 2 ^ 30) (ks : List Kind) :
+    partSections cfg fl (encodeRaw fl m) np (some chunk) (hdrOf m) ks =
+      .ok (ks.map fun k => dedupCells k (m.get k) []) := by
   induction ks with
   | nil => rfl
   | cons k ks ih =>
-    simp only [partSections, partSection_raw fl m hw np hnp chunk hc1 hc2 k, ih, List.map_cons]
+    simp only [partSections, partSection_raw cfg hcap fl m hw np hnp chunk hc1 hc2 k, ih, List.map_cons]
 
 /-- the header as the parallel reader reads it (no narrowing) is the seven counts -/
 theorem rdHeaderPart_raw (fl : Flavor) (m : UMesh) (hw : WellFormed m = true) (rest : Bytes) :
@@ -223,12 +217,12 @@ theorem partHeaderHazard_wf (m : UMesh) (hw : WellFormed m = true) (np : Nat) (h
     rcases hx with rfl | rfl | rfl | rfl | rfl | rfl | rfl <;> omega
 
 /-- **the parallel reader on what a writer lays out**, for every flavour, rank count ≥ 1, chunk size ≥ 1 -/
-theorem partRead_encodeRaw (fl : Flavor) (m : UMesh) (hw : WellFormed m = true) (np : Nat) (hnp : 1 ≤ np)
-    (hnp2 : np < 2 ^ 31) (chunk : Nat) (hc1 : 1 ≤ chunk) (hc2 : 72 * chunk ≤ 2 ^ 30) :
-    partRead fl np (some chunk) (encodeRaw fl m) =
+theorem partRead_encodeRaw (cfg : Cfg) (hcap : cfg.allocCap = 2 ^ 30) (fl : Flavor) (m : UMesh) (hw : WellFormed m = true)
+    (np : Nat) (hnp : 1 ≤ np) (hnp2 : np < 2 ^ 31) (chunk : Nat) (hc1 : 1 ≤ chunk) (hc2 : 72 * chunk ≤ 2 ^ 30) :
+    partReadWith cfg fl np (some chunk) (encodeRaw fl m) =
       .ok { nnode := m.nodes.length, np := np, nodes := m.nodes,
             cells := Kind.all.map fun k => dedupCells k (m.get k) [] } := by
-  unfold partRead
+  unfold partReadWith
   have hraw : encodeRaw fl m = secHeader fl m ++ (secNodes fl m ++ (secConn fl .tri m.tri ++ (secConn fl .qua m.qua ++
       (secTags fl .tri m.tri ++ (secTags fl .qua m.qua ++ (secConn fl .tet m.tet ++ (secConn fl .pyr m.pyr ++
       (secConn fl .pri m.pri ++ secConn fl .hex m.hex)))))))) := by
@@ -246,6 +240,6 @@ theorem partRead_encodeRaw (fl : Flavor) (m : UMesh) (hw : WellFormed m = true) 
     fun rest => rdVerts_flatMap fl m.nodes rest
   rw [hv]
   simp only
-  rw [partSections_raw fl m hw np hnp chunk hc1 hc2]
+  rw [partSections_raw cfg hcap fl m hw np hnp chunk hc1 hc2]
 
 end Refine.Lemmas.Ugrid
